@@ -54,6 +54,8 @@ func isOp(s *sym, op string, n int) bool { return s != nil && s.op == op && len(
 
 func runC04(p *Prog, r *Report) {
 	r.Min("C04.R1", 32*4)
+	r.Min("C04.R7", 2)
+	checkRangeWidth(p, r)
 	r.Min("C04.R2", 4)
 	r.Min("C04.R3", 5)
 	r.Min("C04.R4", 5)
@@ -1114,4 +1116,82 @@ func recvNamed(fn *ssa.Function) *types.Named {
 	}
 	n, _ := t.(*types.Named)
 	return n
+}
+
+// checkRangeWidth (R7): range sizes go up to 2^32 and group moduli beyond it, so the iterator keeps them in
+// 64-bit integers or big.Int: no conversion of a 64-bit integer to a narrower integer type in the iterator
+// or its constructor, no struct field of the iterator narrower than 64 bits that holds a count, and no
+// multiplication of two non-constant int64 values (I*G exceeds 2^63 for the largest group).
+func checkRangeWidth(p *Prog, r *Report) {
+	var fns []*ssa.Function
+	for _, fn := range p.SrcFuncs() {
+		if fn.Pkg != p.SPkg("pkg/scan") {
+			continue
+		}
+		if fn.Name() == "newRangeIterator" || (fn.Signature.Recv() != nil && strings.HasSuffix(types.TypeString(fn.Signature.Recv().Type(), nil), ".rangeIterator")) {
+			fns = append(fns, fn)
+		}
+	}
+	// same-package helpers they call (powMod and the like)
+	seen := map[*ssa.Function]bool{}
+	for _, fn := range fns {
+		for g := range p.staticReach(fn) {
+			if g.Pkg == fn.Pkg {
+				seen[g] = true
+			}
+		}
+	}
+	is64 := func(t types.Type) bool {
+		b, ok := t.Underlying().(*types.Basic)
+		return ok && (b.Kind() == types.Int64 || b.Kind() == types.Uint64 || b.Kind() == types.Int || b.Kind() == types.Uint || b.Kind() == types.Uintptr)
+	}
+	narrow := func(t types.Type) bool {
+		b, ok := t.Underlying().(*types.Basic)
+		if !ok {
+			return false
+		}
+		switch b.Kind() {
+		case types.Int8, types.Int16, types.Int32, types.Uint8, types.Uint16, types.Uint32:
+			return true
+		}
+		return false
+	}
+	var names []string
+	for g := range seen {
+		names = append(names, FuncName(g))
+	}
+	sort.Strings(names)
+	for _, nm := range names {
+		var g *ssa.Function
+		for f := range seen {
+			if FuncName(f) == nm {
+				g = f
+			}
+		}
+		var bad []string
+		for _, b := range g.Blocks {
+			for _, in := range b.Instrs {
+				switch t := in.(type) {
+				case *ssa.Convert:
+					if is64(t.X.Type()) && narrow(t.Type()) {
+						if _, isC := t.X.(*ssa.Const); !isC {
+							bad = append(bad, fmt.Sprintf("64-bit value narrowed to %s at %s", t.Type(), p.Pos(t.Pos())))
+						}
+					}
+				case *ssa.BinOp:
+					if t.Op == token.MUL && is64(t.Type()) {
+						_, cx := t.X.(*ssa.Const)
+						_, cy := t.Y.(*ssa.Const)
+						if !cx && !cy {
+							bad = append(bad, "product of two 64-bit variables at "+p.Pos(t.Pos())+" (overflows for the largest group)")
+						}
+					}
+				}
+			}
+		}
+		r.Check(len(bad) == 0, "C04.R7", nm+"/width", p.Pos(g.Pos()), "range sizes and group elements stay in 64-bit integers or big.Int (no narrowing conversion, no int64 product)", strings.Join(bad, "; "))
+	}
+	if len(seen) < 2 {
+		r.Viol("C04.R7", "iterator functions", "-", "the iterator constructor and its step method are found", fmt.Sprint(len(seen)))
+	}
 }
